@@ -26,7 +26,8 @@ def run_cases(cases, which):
         groups.setdefault((exe, c.get("cwd")), []).append(i)
     for (exe, cwd), idxs in groups.items():
         runner = C.run_lines_parallel if (which == "impl" and exe == C.ANA_EXE) else C.run_lines
-        outs = runner(exe, [cases[i]["line"] for i in idxs], timeout=cases[idxs[0]].get("timeout", 900), cwd=cwd)
+        key = "model_line" if which == "model" else "line"
+        outs = runner(exe, [cases[i].get(key) or cases[i]["line"] for i in idxs], timeout=cases[idxs[0]].get("timeout", 900), cwd=cwd)
         for i, o in zip(idxs, outs):
             replies[i] = o
     return replies
